@@ -28,7 +28,7 @@ def eval_with_defs(root, proof_files, evals, tag):
 
 
 P['C02'] = dict(
-    rule='x25: every 2-byte prefix (reaches each of the 2^16 register states once) and third bytes (3 random per state in quick, all 256 in thorough), random strings hashed in random splits; gate: valid frames of sampled common-dialect messages (v1 and v2) with every single-bit flip, byte substitutions and multi-byte damage, read by a dialect-configured frame.Reader. A case is non-trivial when the model output is not a bare rejection; distinct = distinct case lines.',
+    rule='x25: every 2-byte prefix (reaches each of the 2^16 register states once) and third bytes (3 random per state in quick, all 256 in thorough), random strings hashed in random splits; gate: valid frames of sampled common-dialect messages and of every message of a user-defined dialect (one-element arrays, one-character strings, extensions, enums, the 255-byte message; CRC_EXTRA of each definition compared first), v1 and v2, with every single-bit flip (a random third of them on the user dialect), byte substitutions and multi-byte damage, read by a dialect-configured frame.Reader. A case is non-trivial when the model output is not a bare rejection; distinct = distinct case lines.',
     assumptions=['the transport returns data or an error per Read call, never both',
                  'model of bufio.Reader (Model/Stream.v) stands for the Go standard library'],
     mismatch_meaning='the implementation\'s checksum / gate result differs from the model proved equal to CRC-16/MCRF4XX and to the gate specification: a concrete input on which the property fails',
@@ -111,7 +111,7 @@ P['C08'] = dict(
 )
 
 P['C20'] = dict(
-    rule='entry sequences (1..4 entries; v1/v2, signed, raw and dialect-decoded messages, times before/after 1970, at int64-scale values and with sub-microsecond offsets) with unencodable entries (v1 id > 255, message not in the dialect) at random positions; written through tlog.Writer with every budget of successful underlying writes (an error at the k-th Write for every k): per-entry outcome and file bytes compared; the file read back whole and cut at EVERY byte offset, n+3 reads each: sequence of entries / errors compared. Non-trivial: an entry was written or read.; the largest entry (signed v2 frame, 255-byte payload) in every eighth sequence; logs of 350..650 entries (several times the 4096-byte read buffer); the underlying writer follows an outcome oracle: besides the k-th-and-later-fail budgets, exactly the k-th underlying Write fails for every k (transient failure)',
+    rule='entry sequences (1..4 entries; v1/v2, signed, raw and dialect-decoded messages, times before/after 1970, at int64-scale values and with sub-microsecond offsets) with unencodable entries (v1 id > 255, message not in the dialect) at random positions; written through tlog.Writer with every budget of successful underlying writes (an error at the k-th Write for every k): per-entry outcome and file bytes compared; the file read back whole and cut at EVERY byte offset, n+3 reads each: sequence of entries / errors compared. Non-trivial: an entry was written or read.; the largest entry (signed v2 frame, 255-byte payload) in every eighth sequence; logs of 350..650 entries (several times the 4096-byte read buffer); the underlying writer follows an outcome oracle: besides the k-th-and-later-fail budgets, exactly the k-th underlying Write fails for every k (transient failure); entries read back are kept as returned and rendered only after the last read (an entry must not change because more was read)',
     assumptions=['a failing underlying Write writes nothing', 'bufio.Reader modelled by the flat stream semantics (Model/Stream.v, proved equivalent to the chunked model)'],
     mismatch_meaning='file contents, reported errors or entries read back differ from the model proved to round-trip, to be truncation-safe and to leave no partial entry: concrete entry sequence / cut offset / failing write',
 )
@@ -125,7 +125,7 @@ def find_bad_c19(root):
     return 'bitmask enums whose zero / constants / union do not round-trip (with the failing values), then ordinary enums with inconsistent maps: ' + out[:2500]
 
 P['C19'] = dict(
-    rule='every enum type of the shipped dialects with text methods (registry regenerated from the sources on every run): zero, every defined constant, for bitmask enums random combinations of the single-bit flags and the union of all flags, for ordinary enums random/boundary unnamed values over the whole uint64 range incl. 2^63-1, 2^63, 2^63+1, 2^64-1; MarshalText then UnmarshalText compared with the model (text and value); parsing of garbage, numerals, names and name combinations. Non-trivial: the round trip produced a value.; every parse also goes into a variable that already holds other bits; six enums of a dialect generated on the spot by the real generator (plain, bitmask, a flag above the entry count) are compiled with a probe and round-tripped the same way',
+    rule='every enum type of the shipped dialects with text methods (registry regenerated from the sources on every run): zero, every defined constant, for bitmask enums random combinations of the single-bit flags and the union of all flags, for ordinary enums random/boundary unnamed values over the whole uint64 range incl. 2^63-1, 2^63, 2^63+1, 2^64-1; MarshalText then UnmarshalText compared with the model (text and value); parsing of garbage, numerals, names and name combinations. Non-trivial: the round trip produced a value.; every parse also goes into a variable that already holds other bits; eight enums of a dialect generated on the spot by the real generator (plain, bitmask, a flag above the entry count, a bitmask and an ordinary enum of an included definition extended by the including one) are compiled with a probe and round-tripped the same way',
     assumptions=['Go maps labels_X / values_X are read from the source by go/ast and modelled as association lists'],
     mismatch_meaning='text rendering or parsing of an enum value differs from the model proved to round-trip: concrete enum type and value',
     find_bad=find_bad_c19,
@@ -206,7 +206,7 @@ P['C14'] = dict(
 
 P['C16'] = dict(
     bin='scen', compare=cmp_scen,
-    rule='(1) heartbeats: a real Node over 1..3 scripted pipes, period 80..160 ms, random system type / autopilot type, six dialects (shipped minimal and common, custom with the standard heartbeat, without id 0, with a non-standard id 0, with a non-standard id 66,), no dialect, disabled: after 5.5 periods every pipe must hold only heartbeats with exactly the model\'s field values, or nothing when the model says off; count within [4,6], first heartbeat not before 0.6 period, gaps within [0.5,1.5] period (retried up to 3 times before TIMING is reported); (2) stream requests: histories of 5..44 frames (heartbeats from 3 systems x 2 components with autopilot 3/0/8/12, other messages, v1 and v2) over 1..3 channels, enable on/off, frequency 0/1/4/10/300/65535: per channel the decoded requests written (fields, order, sender ids) and the event sequence (stream-requested before the frame event) compared with the model; (3) in real time, run beside the rest: quick 34 s across one cleaner tick (entries younger than 30 s survive the tick, older ones are requested again), thorough 63 s across two ticks (a cleaned entry is requested again). Non-trivial: heartbeats observed, or at least one request burst.',
+    rule='(1) heartbeats: a real Node over 1..3 scripted pipes, period 80..160 ms, random system type / autopilot type, six dialects (shipped minimal and common, custom with the standard heartbeat, without id 0, with a non-standard id 0, with a non-standard id 66,), no dialect, disabled: after 5.5 periods every pipe must hold only heartbeats with exactly the model\'s field values, or nothing when the model says off; count within [4,6], first heartbeat not before 0.6 period, gaps within [0.5,1.5] period (retried up to 3 times before TIMING is reported); (2) stream requests: histories of 5..44 frames (heartbeats from systems 1/2/10/255 x components 1/2/255 — 10 is the system id of the node itself, 10.1 its identity — with autopilot 3/0/8/12, other messages, v1 and v2) over 1..3 channels, enable on/off, frequency 0/1/4/10/300/65535: per channel the decoded requests written (fields, order, sender ids) and the event sequence (stream-requested before the frame event) compared with the model; (3) in real time, run beside the rest: quick 34 s across one cleaner tick (entries younger than 30 s survive the tick, older ones are requested again), thorough 63 s across two ticks (a cleaned entry is requested again). Non-trivial: heartbeats observed, or at least one request burst.',
     assumptions=['tick spacing is the Go runtime ticker\'s; checked inside a tolerant bracket with retries', 'the real-time history leaves margins of 1.5 s around the 30 s threshold'],
     mismatch_meaning='the heartbeats or stream requests observed on the real node (content, count of seven, addressing, events, absence when disabled or non-standard) differ from the model the C16 theorems are proved about',
 )
